@@ -355,7 +355,9 @@ func c20Run1(idx int, seed uint64) c20Result {
 		c := &c20Chan{id: seed<<8 ^ uint64(1000+i)*0x9E3779B97F4A7C15, grp: -1, form: 's', end: 's'}
 		c.endStart.Store(never)
 		burst = append(burst, c)
+		r.mu.Lock()
 		r.chans[c.id] = c
+		r.mu.Unlock()
 	}
 	if nburst > 0 {
 		wg.Add(1)
